@@ -326,12 +326,13 @@ def inAnyLayerDirectory (cfg : Config) : Nat → Bytes → Bool
     else if p == cfg.layerdirs then true
     else inAnyLayerDirectory cfg fuel (pathDir p)
 
-/-- fs.IsDescendant for clean absolute paths (filepath.Rel, first byte not '.') -/
+/-- fs.IsDescendant for clean absolute paths (filepath.Rel; after fix eeedaf2 the relative
+    path is not ".", not ".." and does not begin with "../") -/
 def isDescendant (dir test : Bytes) : Bool :=
   if test == dir then false
   else if Fs.under dir test then
     let rel := if dir == [47] then test.drop 1 else test.drop (dir.length + 1)
-    rel.head? != some 46 && rel.length > 0
+    rel.length > 0 && rel != [46] && rel != [46, 46] && !hasPrefix rel [46, 46, 47]
   else false
 
 /-! ### mount-table queries used by package manage (after fix 8d11829) -/
@@ -374,7 +375,10 @@ def findLayerstate (cfg : Config) (fs : Fs.Tree) (d : Defs) (l : Layer) : Res La
       | some bl =>
         if bl.state < S_mountable then .ok none else
         match getMount d.mounts builddir with
-        | none => .ok (some ({ l with state := S_mountable }, 1000000))   -- marker: return now
+        | none =>
+          -- (after fix f9eff6a) mounts below the build root but no overlay: error
+          if l.mounts.length > 0 then .ok (some ({ l with state := S_error }, 1000000))
+          else .ok (some ({ l with state := S_mountable }, 1000000))   -- marker: return now
         | some mnt =>
           if mnt.fstype != b!"overlay" then .ok (some ({ l with state := S_error }, 1000000))
           else if mnt.source != buildPath cfg bl || mnt.source2 != upperPath cfg l
